@@ -6,6 +6,7 @@
 From FMP Require Import Base.Bytes Base.Lts Model.Connection Model.ConnProps Model.ConnCfg Model.CTransport
      Proofs.ConnProofs Proofs.ConnCfgProofs Proofs.CTransportProofs.
 From FMP Require Import Model.Paths Proofs.PathProofs.
+From FMP Require Import Proofs.ConnProgress.
 Open Scope Z_scope.
 
 (* however commands, forced reconnects, disconnections and Shutdown race: at most one dial attempt is in progress *)
@@ -73,6 +74,30 @@ Proof. exact ct_dial_stages. Qed.
 Theorem C14_generated_ok : ccfg_now = expected_ccfg /\ cc_spawn_guarded expected_ccfg = true /\ cc_register_before_onconnect expected_ccfg = true.
 Proof. exact (conj ccfg_generated_ok (conj eq_refl eq_refl)). Qed.
 
+(* ---------- progress: a running sequence can always finish, every waiter can be released ---------- *)
+(* from ANY reachable state the running sequence reaches its end using only its own steps and the timer running out, within
+   14 * (scripted failures left + 1) + 4 steps (7 * failures + 12 suffice: conn_sequence_can_finish_tight) *)
+Theorem C14_sequence_can_finish : forall cfg o eager ds cs cm st g s,
+    cc_spawn_guarded cfg = true -> cmds_fresh cm = true -> reachable cfg o eager ds cs cm st ->
+    sfind g (seqs st) = Some s ->
+    exists ls st', (length ls <= 14 * (budget st + 1) + 4)%nat /\ forallb (is_seq_label g) ls = true /\
+                   run (cstep cfg o) st ls = Some st' /\ sfind g (seqs st') = None /\ ffind g (finished st') <> None.
+Proof. exact conn_sequence_can_finish. Qed.
+Theorem C14_waiter_can_be_released : forall cfg o eager ds cs cm st c x g,
+    cc_spawn_guarded cfg = true -> cmds_fresh cm = true -> reachable cfg o eager ds cs cm st ->
+    cfindc c (cmds st) = Some x -> cm_pc x = CWait g ->
+    exists ls st' st'', (length ls <= 14 * (budget st + 1) + 4)%nat /\
+                   run (cstep cfg o) st ls = Some st' /\ cstep cfg o st' (LWake c) = Some st''.
+Proof. exact conn_waiter_can_be_released. Qed.
+(* with no scripted failure left and no Shutdown the sequence ends with success *)
+Theorem C14_sequence_succeeds_when_nothing_fails : forall cfg o eager ds cs cm st g s,
+    cc_spawn_guarded cfg = true -> cmds_fresh cm = true -> reachable cfg o eager ds cs cm st ->
+    sfind g (seqs st) = Some s -> sq_cancelled s = false -> dials st = [] -> conns st = [] ->
+    (match sq_pc s with SCheck e => e = ENone | SNotify _ | SBackoff | SFinishing => False | _ => True end) ->
+    exists ls st', (length ls <= 18)%nat /\ forallb (is_seq_label g) ls = true /\
+                   run (cstep cfg o) st ls = Some st' /\ ffind g (finished st') = Some ENone.
+Proof. exact conn_sequence_succeeds_when_nothing_fails. Qed.
+
 (* every path through Connection.connect as it is in the source now (Model/Paths.v): Finalize at most once, and only after
    a Dial and an OnConnect on that same path *)
 Theorem C14_connect_paths : connect_paths_ordered = true. Proof. exact paths_connect_order. Qed.
@@ -89,3 +114,6 @@ Print Assumptions C14_close_closes_all.
 Print Assumptions C14_dial_stages.
 Print Assumptions C14_generated_ok.
 Print Assumptions C14_connect_paths.
+Print Assumptions C14_sequence_can_finish.
+Print Assumptions C14_waiter_can_be_released.
+Print Assumptions C14_sequence_succeeds_when_nothing_fails.
